@@ -305,7 +305,7 @@ fn main() {
     let mut rng = Rng::new(env_seed());
     let mut count = 0u64;
     let ncfg = if tier == "quick" { 60 } else { 1500 };
-    let strs = ["k", "some.key", "a", "web-01", "日本", "", "x_y", "http:requests", "a|b", "l\nm", "#x", "a,b", "@t"];
+    let strs = ["k", "some.key", "a", "web-01", "日本", "", "x_y", "http:requests", "a|b", "l\nm", "#x", "a,b", "@t", ".lead", "..x", "trail."];
     for c in 0..ncfg {
         let unset = c % 12 == 11;
         let prefix = if unset { "UNSET".to_string() } else { h(*rng.pick(&["", "p", "app.", "a..", "日本"])) };
